@@ -3,23 +3,23 @@ open XotModel.Props
 #print axioms C15_subset
 #print axioms C15_same_nodes
 #print axioms C15_frame
-#print axioms C15_idem_false
-#print axioms C15_serialises_false
-#print axioms C15_recursive_form
-#print axioms C15_serialises_partial
-#print axioms C15_recursive_form_inner
-#print axioms C15_serialises_partial_inner
 #print axioms C15_keeps_undeclarations
 #print axioms C15_keeps_undeclarations_at
 #print axioms C15_keeps_undeclarations_unique_needed
-#print axioms C15_idem_partial
-#print axioms C15_idem_partial_tree
-#print axioms C15_idem_partial_noShadowing
-#print axioms C15_idem_needs_noRebind
-#print axioms C15_idem_needs_noFlag
+#print axioms C15_terminates
+#print axioms C15_pass_false
+#print axioms C15_fuel_suffices
+#print axioms C15_idem
+#print axioms C15_recursive_form
+#print axioms C15_serialises
+#print axioms C15_serialises_root
+#print axioms C15_serialises_call_node
+#print axioms C15_serialises_inside
+#print axioms C15_serialises_inside_only_elements_needed
+#print axioms C15_serialises_everywhere
+#print axioms C15_serialises_unique_needed
 #print axioms C15_representable
 #print axioms C15_representable_fragment
 #print axioms C15_reparses_deep_equal
-#print axioms C15_roundtrip_partial
-#print axioms C15_roundtrip_partial_text
-#print axioms C15_rt_witness_noShadowing
+#print axioms C15_roundtrip
+#print axioms C15_roundtrip_text
